@@ -728,6 +728,18 @@ func runC06(c *eng.Ctx) {
 		}
 	}
 	c.Floor(9)
+	// ---- R06.6 extension: a replayed stream deletion notifies the groups at its own log position
+	c.Rule("R06.6", "K2")
+	ruleReplayedDeleteNotifiesGroups(c)
+
+	// ---- rules whose current findings are recorded as known (see knownrules.go)
+	c.Rule("R06.2", "K8")
+	ruleResumeAllOnlyInFSM(c)
+	c.Rule("R06.4", "K6")
+	ruleSnapshotCarriesAssignments(c)
+	c.Rule("R06.8", "K2")
+	ruleRestoredPartitionsAreStarted(c)
+
 }
 
 func allCollect(fs []eng.OrderFinding) bool {
